@@ -407,8 +407,14 @@ Definition literal_types_ok (S : tsdoc) (a : list (ident * value) * list inputva
 
 Definition overlap (a b : list str) : bool := existsb (fun x => mem x b) a.
 
+(** Fragment spread is possible (5.5.2.3): the possible types of the parent type and of the type condition
+    intersect. Identical types overlap by definition (as in the reference implementation's doTypesOverlap,
+    which starts with `if (typeA === typeB) return true`): an interface nobody implements yet may still be
+    spread in itself. *)
+Definition type_name (t : typedef) : str := iname (typedef_name t).
 Definition applies (S : tsdoc) (p c : typedef) : bool :=
-  negb (is_composite p) || negb (is_composite c) || overlap (possible_types S p) (possible_types S c).
+  negb (is_composite p) || negb (is_composite c) || str_eqb (type_name p) (type_name c)
+  || overlap (possible_types S p) (possible_types S c).
 
 (** per argument definition: the value supplied for it has the declared type *)
 Definition literal_types_vis (S : tsdoc) (a : list (ident * value) * list inputvaldef) : bool :=
@@ -677,4 +683,16 @@ Definition schema_wf (S : tsdoc) : bool :=
         forallb (fun f => names_distinct (field_argdefs f)) fs
     | TSDirective dd => names_distinct (dir_argdefs dd)
     | _ => true
-    end) S.
+    end) S
+  (* at most one schema definition (3.3), and it comes from a source text *)
+  && Nat.leb (length (filter (fun d => match d with TSSchema _ => true | _ => false end) S)) 1
+  && forallb (fun d => match d with TSSchema sd => negb (pbuiltin (sd_pos sd)) | _ => true end) S.
+
+(** input positions have input types that exist (3.6.1, 3.10): used by the completeness direction (C04) *)
+Definition resolves (S : tsdoc) (t : ty) : bool :=
+  match sp_type S (iname (ty_unwrapped t)) with Some td => is_input_type td | None => false end.
+Definition input_types_closed (S : tsdoc) : bool :=
+  forallb (fun d => match d with
+                    | TSType (TDInput _ _ _ _ fields _) => forallb (fun f => resolves S (iv_type f)) fields
+                    | _ => true
+                    end) S.
